@@ -520,6 +520,9 @@ def section_poly(ctx, r, corr):
                     h = {next(iter(k)): float(b) for k, b in prob.terms.items() if len(k) == 1}
                     J = {tuple(k): float(b) for k, b in prob.terms.items() if len(k) > 1}
                     call = f'{ssrc}.sample_hising({h!r}, {J!r}{kwtxt})'
+                    if True:
+                        corr.add('hising ; ' + ','.join(f'{lab(v)}={rat(fr(b))}' for v, b in h.items()) + ' ; ' + '|'.join(f"{rat(fr(b))}@{'&'.join(lab(v) for v in k)}" for k, b in J.items()),
+                                 canon_poly(BinaryPolynomial.from_hising(h, J)), 'BinaryPolynomial.from_hising', repr((h, J)))
                     ss = sampler.sample_hising(h, J, **kw)
                 else:
                     H = {tuple(k): float(b) for k, b in prob.terms.items()}
@@ -850,6 +853,184 @@ def section_post(ctx, r, corr):
                      repro=PRE + src + f'dimod.StructureComposite(dimod.ExactSolver(), {nodes!r}, {edges!r}).sample(BQM)\n')
 
 
+# ------------------------------------------------------------------ section: stochastic samplers over explicit draws
+
+class _FakeRandom:
+    """stands in for the `random` module inside simulated_annealing.py: every draw comes from the harness PRNG and is
+    recorded — `choice((-1, 1))` as an index, `uniform(0, 1)` (whose logarithm is what the code uses) as the value the
+    stand-in for `math.log` returns next, attributed to the variable `v` it is drawn for (read from the caller's frame)"""
+
+    def __init__(self, r, ldraw):
+        self.r, self.ldraw = r, ldraw
+        self.inits, self.acc, self.pending = [], [], None
+
+    def choice(self, seq):
+        i = self.r.randrange(len(seq))
+        self.inits.append(i)
+        return seq[i]
+
+    def uniform(self, a, b):
+        import sys
+        self.pending = self.ldraw()
+        self.acc.append((sys._getframe(1).f_locals.get('v', _FakeRandom), self.pending))
+        return 0.5
+
+
+class _FakeMath:
+    def __init__(self, fr_):
+        self.fr_ = fr_
+
+    def log(self, x):
+        return self.fr_.pending
+
+    def __getattr__(self, name):
+        import math
+        return getattr(math, name)
+
+
+class _FakeRandomState:
+    """stands in for `np.random.RandomState` inside `_random_generator`: `choice(values, size)` = `values[index draws]`"""
+    log = None
+    rng = None
+
+    def __init__(self, seed=None):
+        pass
+
+    def choice(self, values, size=None):
+        n = int(np.prod(size))
+        idx = [type(self).rng.randrange(len(values)) for _ in range(n)]
+        type(self).log.extend(idx)
+        return np.asarray(values)[np.asarray(idx, dtype=np.intp).reshape(size)]
+
+
+def section_draws(ctx, r, corr):
+    """SimulatedAnnealingSampler and RandomSampler with the pseudo-random generator replaced by recorded draws: the same
+    draws go to the Lean state machines (`sarun`, `rnd`), whose rows must be the real ones; and every row is checked
+    against the submitted problem (variables, domain, energy) independently"""
+    from dimod.reference.samplers import simulated_annealing as sa_mod
+    import math as real_math
+    import random as real_random
+    for pi in range(ctx.scale(700, 12000)):
+        prob = BqmProblem(r)
+        if pi % 7 and len(prob.labels) < 2:
+            continue
+        src = prob.src()
+        bqm = prob.bqm(r.choice([None, None, np.float32]))
+        h, J, _off = bqm.to_ising()
+        # ---- SimulatedAnnealingSampler
+        mode = r.choice(['given', 'given', 'default', 'default', 'refuse', 'one sweep'])
+        kw = dict(num_reads=r.randint(1, 3))
+        if mode == 'given':
+            kw['beta_range'] = r.choice([(0.125, 2.0), (0.5, 4.0), (1.0, 1.0), (2.0, 0.25), [0.25, 8]])
+            kw['num_sweeps'] = r.choice([2, 3, 5])           # (β1 - β0)/(n - 1) stays dyadic: the schedule is exact in floats
+            ldraw = lambda: r.choice([0.0, -0.25, -0.5, -1.0, -2.0, -4.0, -8.0, -64.0, float(-r.randint(0, 96)) / 8])  # noqa: E731
+        elif mode == 'default':
+            kw['num_sweeps'] = r.randint(2, 5)
+            # β0 = .1 is not dyadic: draws off every grid the thresholds can hit (odd multiples of 1/1024), so the float
+            # comparison and the exact one never disagree
+            ldraw = lambda: -(r.randint(0, 12 * 512) * 2 + 1) / 1024.0  # noqa: E731
+        elif mode == 'one sweep':
+            # `0 * (β1 - β0) / 0.`: ZeroDivisionError for Python floats, nan (no flips) for NumPy scalars — either is within the property
+            kw['num_sweeps'] = 1
+            if r.random() < .4:
+                kw['beta_range'] = (0.5, 2.0)
+            ldraw = lambda: r.choice([0.0, -1.0, -64.0])  # noqa: E731
+        else:
+            what = r.choice(['sweeps=0', 'sweeps<0', 'beta<=0', 'reads=0'])
+            kw['num_sweeps'] = {'sweeps=0': 0, 'sweeps<0': -2}.get(what, 3)
+            if what == 'beta<=0':
+                kw['beta_range'] = r.choice([(0.0, 1.0), (1.0, -2.0)])
+            elif r.random() < .5:
+                kw['beta_range'] = (0.5, 2.0)
+            if what == 'reads=0':
+                kw['num_reads'] = 0
+            ldraw = lambda: -1.0  # noqa: E731
+        fake = _FakeRandom(r, ldraw)
+        reads_log = []
+        real_isa = sa_mod.ising_simulated_annealing
+
+        def one_read(*a, **k):
+            fake.inits, fake.acc = [], []
+            try:
+                return real_isa(*a, **k)
+            finally:
+                reads_log.append((fake.inits, fake.acc))
+        sa_mod.random, sa_mod.math, sa_mod.ising_simulated_annealing = fake, _FakeMath(fake), one_read
+        try:
+            ss = dimod.SimulatedAnnealingSampler().sample(bqm, **kw)
+            got = 'ok ' + rows_text(ss)
+        except ValueError:
+            ss, got = None, 'err value'
+        except ZeroDivisionError:
+            ss, got = None, 'err zerodiv'
+        finally:
+            sa_mod.random, sa_mod.math, sa_mod.ising_simulated_annealing = real_random, real_math, real_isa
+        call = 'dimod.SimulatedAnnealingSampler().sample(BQM' + ''.join(f', {k}={v!r}' for k, v in kw.items()) + ')'
+        ctx.tick(f'draws:SA {mode}' + ('' if ss is not None else ':' + got[4:]))
+        ctx.case(('sa-draws', pi, mode, got[:40]), nontrivial=len(prob.labels) > 0)
+        if mode == 'refuse' and ss is not None:
+            ctx.fail('property', 'SimulatedAnnealingSampler.sample', 'invalid option accepted', f'{call} returned a sample set', repro=PRE + src + 'try:\n    ' + call + '\nexcept (ValueError, ZeroDivisionError):\n    pass\nelse:\n    raise AssertionError("accepted")\n')
+        if mode not in ('refuse', 'one sweep') and ss is None:
+            ctx.fail('property', 'SimulatedAnnealingSampler.sample', 'valid options refused', f'{call}: {got}', repro=PRE + src + call + '\n')
+        if ss is not None:
+            if len(ss) != kw['num_reads']:
+                ctx.fail('property', 'SimulatedAnnealingSampler.sample', 'num_reads', f'{len(ss)} rows for num_reads={kw["num_reads"]}', repro=PRE + src + f'assert len({call}) == {kw["num_reads"]}\n')
+            validate(ctx, ss, prob, 'SimulatedAnnealingSampler.sample', f'{prob.vartype} explicit draws ({mode} beta_range)', src, call)
+        hk = list(h)
+        if ss is not None and len(reads_log) == len(ss) and list(ss.variables) == hk:
+            for (inits, _acc), row in zip(reads_log, ss.record.sample):
+                final = [int(x) if prob.spin else 2 * int(x) - 1 for x in row]
+                ctx.tick('draws:SA read ' + ('with a flipped spin' if final != [(-1, 1)[i] for i in inits] else 'ending in its initial guess'))
+        reads_txt = []
+        attributable = True
+        for inits, acc in reads_log:
+            ns = kw['num_sweeps']
+            if len(inits) != len(hk) or len(acc) != len(hk) * max(ns, 0) or any(v is _FakeRandom for v, _ in acc):
+                attributable = False
+                break
+            parts = [','.join(f'{lab(v)}={i}' for v, i in zip(hk, inits))]
+            for k in range(ns):
+                chunk = acc[k * len(hk):(k + 1) * len(hk)]
+                if sorted(map(repr, (v for v, _ in chunk))) != sorted(map(repr, hk)):
+                    attributable = False
+                parts.append(','.join(f'{lab(v)}={rat(fr(x))}' for v, x in chunk))
+            reads_txt.append('#'.join(parts))
+        if ss is not None and not attributable:
+            ctx.fail('correspondence', 'ising_simulated_annealing', 'draw pattern',
+                     f'the draws are not one choice per variable and one uniform per variable and sweep: {[(len(a), len(b)) for a, b in reads_log]} for {len(hk)} variables, {kw}', detail=dict(case=src + call))
+        elif ss is not None or not reads_log:
+            if ss is None:          # refused before any draw: the model needs num_reads draw records to reach the same check
+                reads_txt = ['#'.join([''] * (1 + max(kw['num_sweeps'], 0)))] * kw['num_reads']
+            br = kw.get('beta_range')
+            line = (f"sarun {int(prob.spin)} {kw['num_sweeps']} {'-' if br is None else rat(fr(br[0]))} {'-' if br is None else rat(fr(br[1]))} {int(bqm.dtype != object)} ; " + wire_bqm(prob) +
+                    ' ; ' + ','.join(f'{lab(v)}={rat(fr(b))}' for v, b in h.items()) + ' ; ' + ','.join(f'{lab(u)}&{lab(v)}={rat(fr(b))}' for (u, v), b in J.items()) +
+                    ' ; ' + '|'.join(reads_txt))
+            corr.add(line, got, 'SimulatedAnnealingSampler.sample', src + call)
+        # ---- RandomSampler
+        nr = r.choice([0, 1, 1, 2, 3, 5])
+        _FakeRandomState.log, _FakeRandomState.rng = [], r
+        real_rs = np.random.RandomState
+        np.random.RandomState = _FakeRandomState
+        try:
+            rs = dimod.RandomSampler().sample(bqm, num_reads=nr, seed=r.randrange(1000))
+            got = 'ok ' + rows_text(rs)
+        except ValueError:
+            rs, got = None, 'err'
+        finally:
+            np.random.RandomState = real_rs
+        call = f'dimod.RandomSampler().sample(BQM, num_reads={nr})'
+        ctx.tick('draws:Random' + ('' if rs is not None else ':refused'))
+        ctx.case(('rnd-draws', pi, nr, got[:40]), nontrivial=len(prob.labels) > 0 and nr > 0)
+        if (rs is None) != (nr < 1):
+            ctx.fail('property', 'RandomSampler.sample', 'num_reads', f'{call}: {"refused" if rs is None else "accepted"}', repro=PRE + src + (call + '\n' if nr >= 1 else 'try:\n    ' + call + '\nexcept ValueError:\n    pass\nelse:\n    raise AssertionError("accepted")\n'))
+        if rs is not None:
+            if len(rs) != nr:
+                ctx.fail('property', 'RandomSampler.sample', 'num_reads', f'{len(rs)} rows for num_reads={nr}', repro=PRE + src + f'assert len({call}) == {nr}\n')
+            validate(ctx, rs, prob, 'RandomSampler.sample', f'{prob.vartype} explicit draws', src, call)
+        corr.add(f'rnd {int(prob.spin)} {nr} ; ' + ','.join(map(lab, bqm.variables)) + ' ; ' + ('.'.join(map(str, _FakeRandomState.log)) or '-') + ' ; ' + wire_bqm(prob),
+                 got, 'RandomSampler.sample', src + call)
+
+
 # ------------------------------------------------------------------ section D: DQM and CQM exact solvers
 
 def section_dqm(ctx, r, corr):
@@ -1035,6 +1216,7 @@ def run(ctx):
     section_poly(ctx, r, corr)
     section_initial_state(ctx, r, corr)
     section_post(ctx, r, corr)
+    section_draws(ctx, r, corr)
     section_dqm(ctx, r, corr)
     section_cqm(ctx, r, corr)
     got = run_driver('enumdriver', corr.lines)
